@@ -117,6 +117,10 @@ class Isomorphism(Generic[ClassType1, ObjType1, ClassType2, ObjType2]):
         # Update ancestors for recursion
         self._ancestors.update(product(eq_path1, eq_path2))
 
+        # Matches found while exploring this pair may rely on this pair being a
+        # match (recursion). If it turns out not to be one they must be forgotten.
+        matched_before = set(self._order_map)
+
         # The number of nonempty children
         n = len(non_empty_ind1)
 
@@ -178,6 +182,9 @@ class Isomorphism(Generic[ClassType1, ObjType1, ClassType2, ObjType2]):
         self._ancestors.difference_update(product(eq_path1, eq_path2))
         self._failed.add((curr1, curr2))
         self._index_data.pop((curr1, curr2), None)
+        for key in set(self._order_map) - matched_before:
+            del self._order_map[key]
+            self._index_data.pop(key, None)
         return False
 
     def _get_eq_descendant(
